@@ -216,7 +216,7 @@ func (db *DB) loadSchema(of Object) (s *Schema, err error) {
 	}
 
 	if stat.Mode().IsRegular() {
-		if err = unmarshalJsonFile(path, &s); err != nil {
+		if err = unmarshalJsonFile(path, &s, false); err != nil {
 			return
 		}
 
@@ -397,7 +397,7 @@ func (db *DB) get(in Object) (out Object, err error) {
 	}
 
 	path = filepath.Join(db.oDir(in), s.filename(in))
-	err = unmarshalJsonFile(path, in)
+	err = unmarshalJsonFile(path, in, s.Compress)
 	out = in
 
 	// we cache the object, only if it could be read
